@@ -26,7 +26,7 @@
    rejects the trace (the code fired a timer before its deadline).
 
    Steps of the model that leave no record in the bound files are executed with a neighbouring event:
-     SArm (add_io_timer: the timer list is C08's) with the `co.store` that follows it, LRes (co_io_result) with the
+     SArm (add_io_timer: the timer list is C08's) at the `co.yield` that starts the kernel half, LRes (co_io_result) with the
      `io_flag.store(0)` / the TimedOut return that follows it, SFastT (fast_schedule's disarm + run_coroutine) at the
      `co.resume` it produces, SelFire with the handler's first access, SelDisarm (select: disarm + schedule) lazily -
      before the selector thread's next bound event or the resumption of the coroutine, whichever comes first (the
@@ -57,29 +57,32 @@ Record aux := {
   preflag : list Z;              (* io_flag words that got an event before their descriptor was known *)
   selthr : nat -> option nat;    (* descriptor -> the thread that serves it *)
   selcur : nat -> option nat;    (* thread -> descriptor whose event / timer it is handling *)
+  selpre : nat -> option Z;      (* thread -> unknown io_flag word it reported an event on and has not yet looked into the slot of *)
   fds : list nat;                (* descriptors in use *)
   dgr : nat -> bool;             (* descriptor is a datagram socket *)
   amap : nat -> option nat;      (* scenario index -> model actor (io.actor) *)
   cpend : nat -> option nat;     (* thread -> scenario index announced by io.cancel *)
   ctgt : nat -> option nat;      (* thread -> model actor it is cancelling *)
   precan : list nat;             (* scenario indices cancelled before they announced themselves *)
+  cnull : nat -> option nat;     (* descriptor -> timer entry that a cancel is about to null / has just nulled *)
   seen : list nat                (* model actors that started an operation *)
 }.
 Record ast := { ms : st; ax : aux }.
 
 Definition aux0 : aux :=
   {| tm := fun _ => MNone; cmap := []; nco := 0; oflag := []; oco := []; preflag := []; selthr := fun _ => None;
-     selcur := fun _ => None; fds := []; dgr := fun _ => false; amap := fun _ => None; cpend := fun _ => None;
-     ctgt := fun _ => None; precan := []; seen := [] |}.
+     selcur := fun _ => None; selpre := fun _ => None; fds := []; dgr := fun _ => false; amap := fun _ => None; cpend := fun _ => None;
+     ctgt := fun _ => None; precan := []; cnull := fun _ => None; seen := [] |}.
 Definition ainit : ast := {| ms := init; ax := aux0 |}.
 
-Definition set_tm x v := {| tm := v; cmap := cmap x; nco := nco x; oflag := oflag x; oco := oco x; preflag := preflag x; selthr := selthr x; selcur := selcur x; fds := fds x; dgr := dgr x; amap := amap x; cpend := cpend x; ctgt := ctgt x; precan := precan x; seen := seen x |}.
-Definition set_cmap x v n := {| tm := tm x; cmap := v; nco := n; oflag := oflag x; oco := oco x; preflag := preflag x; selthr := selthr x; selcur := selcur x; fds := fds x; dgr := dgr x; amap := amap x; cpend := cpend x; ctgt := ctgt x; precan := precan x; seen := seen x |}.
-Definition set_oflag x v p := {| tm := tm x; cmap := cmap x; nco := nco x; oflag := v; oco := oco x; preflag := p; selthr := selthr x; selcur := selcur x; fds := fds x; dgr := dgr x; amap := amap x; cpend := cpend x; ctgt := ctgt x; precan := precan x; seen := seen x |}.
-Definition set_oco x v := {| tm := tm x; cmap := cmap x; nco := nco x; oflag := oflag x; oco := v; preflag := preflag x; selthr := selthr x; selcur := selcur x; fds := fds x; dgr := dgr x; amap := amap x; cpend := cpend x; ctgt := ctgt x; precan := precan x; seen := seen x |}.
-Definition set_sel x v c := {| tm := tm x; cmap := cmap x; nco := nco x; oflag := oflag x; oco := oco x; preflag := preflag x; selthr := v; selcur := c; fds := fds x; dgr := dgr x; amap := amap x; cpend := cpend x; ctgt := ctgt x; precan := precan x; seen := seen x |}.
-Definition set_fds x v d s := {| tm := tm x; cmap := cmap x; nco := nco x; oflag := oflag x; oco := oco x; preflag := preflag x; selthr := selthr x; selcur := selcur x; fds := v; dgr := d; amap := amap x; cpend := cpend x; ctgt := ctgt x; precan := precan x; seen := s |}.
-Definition set_can x am cp ct pc := {| tm := tm x; cmap := cmap x; nco := nco x; oflag := oflag x; oco := oco x; preflag := preflag x; selthr := selthr x; selcur := selcur x; fds := fds x; dgr := dgr x; amap := am; cpend := cp; ctgt := ct; precan := pc; seen := seen x |}.
+Definition set_tm x v := {| tm := v; cmap := cmap x; nco := nco x; oflag := oflag x; oco := oco x; preflag := preflag x; selthr := selthr x; selcur := selcur x; selpre := selpre x; fds := fds x; dgr := dgr x; amap := amap x; cpend := cpend x; ctgt := ctgt x; precan := precan x; cnull := cnull x; seen := seen x |}.
+Definition set_cmap x v n := {| tm := tm x; cmap := v; nco := n; oflag := oflag x; oco := oco x; preflag := preflag x; selthr := selthr x; selcur := selcur x; selpre := selpre x; fds := fds x; dgr := dgr x; amap := amap x; cpend := cpend x; ctgt := ctgt x; precan := precan x; cnull := cnull x; seen := seen x |}.
+Definition set_oflag x v p := {| tm := tm x; cmap := cmap x; nco := nco x; oflag := v; oco := oco x; preflag := p; selthr := selthr x; selcur := selcur x; selpre := selpre x; fds := fds x; dgr := dgr x; amap := amap x; cpend := cpend x; ctgt := ctgt x; precan := precan x; cnull := cnull x; seen := seen x |}.
+Definition set_oco x v := {| tm := tm x; cmap := cmap x; nco := nco x; oflag := oflag x; oco := v; preflag := preflag x; selthr := selthr x; selcur := selcur x; selpre := selpre x; fds := fds x; dgr := dgr x; amap := amap x; cpend := cpend x; ctgt := ctgt x; precan := precan x; cnull := cnull x; seen := seen x |}.
+Definition set_sel x v c p := {| tm := tm x; cmap := cmap x; nco := nco x; oflag := oflag x; oco := oco x; preflag := preflag x; selthr := v; selcur := c; selpre := p; fds := fds x; dgr := dgr x; amap := amap x; cpend := cpend x; ctgt := ctgt x; precan := precan x; cnull := cnull x; seen := seen x |}.
+Definition set_fds x v d s := {| tm := tm x; cmap := cmap x; nco := nco x; oflag := oflag x; oco := oco x; preflag := preflag x; selthr := selthr x; selcur := selcur x; selpre := selpre x; fds := v; dgr := d; amap := amap x; cpend := cpend x; ctgt := ctgt x; precan := precan x; cnull := cnull x; seen := s |}.
+Definition set_cnull x v := {| tm := tm x; cmap := cmap x; nco := nco x; oflag := oflag x; oco := oco x; preflag := preflag x; selthr := selthr x; selcur := selcur x; selpre := selpre x; fds := fds x; dgr := dgr x; amap := amap x; cpend := cpend x; ctgt := ctgt x; precan := precan x; cnull := v; seen := seen x |}.
+Definition set_can x am cp ct pc := {| tm := tm x; cmap := cmap x; nco := nco x; oflag := oflag x; oco := oco x; preflag := preflag x; selthr := selthr x; selcur := selcur x; selpre := selpre x; fds := fds x; dgr := dgr x; amap := am; cpend := cp; ctgt := ct; precan := pc; cnull := cnull x; seen := seen x |}.
 
 (* ---- small helpers ---------------------------------------------------------------------------------------- *)
 Definition pcn (p : pc) : nat :=
@@ -200,7 +203,13 @@ Definition mkplan (s : ast) (e : list Z) : plan :=
             let md := match apc (A m c), ahome (A m c) with
                       | Susp, HSub k => MKer k
                       | _, _ => MKerX end in
-            obs (set_tm x (upd (tm x) t md)) (match md with MKerX => outside (apc (A m c)) | _ => true end)
+            (* add_io_timer is the first thing the kernel half of a timed operation does, and it leaves no record in
+               the bound files: SArm is played here (the deadline computed from the model clock is then a lower bound
+               of the real one, whatever holds the worker up before the store) *)
+            match md with
+            | MKer k => acts (set_tm x (upd (tm x) t md)) (match spc_ (Sb m k) with SArm => [Sub k false] | _ => [] end)
+            | _ => obs (set_tm x (upd (tm x) t md)) (outside (apc (A m c)))
+            end
         | _ => None
         end
     | 3 => (* co.subscribed *)
@@ -292,10 +301,17 @@ Definition mkplan (s : ast) (e : list Z) : plan :=
         if at_ PReset then
           match bindo (oflag x) obj f with
           | Some ofl =>
+              (* an event was reported on this word before the descriptor was known: it is played now; the selector
+                 thread that reported it may still be on its way to the coroutine slot (`selpre`) *)
               let pre := zmem (preflag x) obj && negb (is_some (zassoc (oflag x) obj)) && znz v in
-              let x' := set_oflag x ofl (if pre then filter (fun o => negb (Z.eqb o obj)) (preflag x) else preflag x) in
+              let x1 := set_oflag x ofl (if pre then filter (fun o => negb (Z.eqb o obj)) (preflag x) else preflag x) in
+              let late := find (fun t' => match selpre x t' with Some o => Z.eqb o obj | None => false end) (seq 0 64) in
+              let x' := match pre, late with
+                        | true, Some t' => set_sel x1 (upd (selthr x1) f (Some t')) (upd (selcur x1) t' (Some f)) (upd (selpre x1) t' None)
+                        | _, _ => x1 end in
               chk (Bool.eqb (znz v) (flag m f || pre))
-                  (acts x' ((if pre then [Spurious f; SelEvent f f; SelTake f] else []) ++ [Step a 0]))
+                  (acts x' ((if pre then [Spurious f; SelEvent f f] ++ (match late with Some _ => [] | None => [SelTake f] end) else [])
+                            ++ [Step a 0]))
           | None => None
           end
         else None
@@ -304,13 +320,12 @@ Definition mkplan (s : ast) (e : list Z) : plan :=
     | 22 => (* done: io_flag.load -> v *)
         if at_ LChk then chk (Bool.eqb (znz v) (flag m f)) (acts x [Step a 0]) else None
     (* ---- the kernel half: subscribe ---- *)
-    | 23 => (* co.store(co), preceded by add_io_timer when the operation has a timeout *)
+    | 23 => (* co.store(co) *)
         match tm x t with
         | MKer k =>
             match bindo (oco x) obj (sfd (Sb m k)) with
             | Some oc =>
                 match spc_ (Sb m k) with
-                | SArm => actsp (set_oco x oc) [Sub k false; Sub k false] (fun m' => match spc_ (Sb m' k) with SChk => true | _ => false end)
                 | SStore => acts (set_oco x oc) [Sub k false]
                 | _ => None
                 end
@@ -385,12 +400,14 @@ Definition mkplan (s : ast) (e : list Z) : plan :=
     | 32 => (* CancelIoImpl::cancel: e.co.take() -> some *)
         match tm x t with
         | MKer k => match spc_ (Sb m k) with
-                    | SCan3 f' => chk (Bool.eqb (znz v) (is_some (co m f'))) (acts x [Sub k false])
+                    | SCan3 f' => chk (Bool.eqb (znz v) (is_some (co m f')))
+                                      (acts (if znz v then set_cnull x (upd (cnull x) f' (tmr m f')) else x) [Sub k false])
                     | _ => None end
         | _ =>
             match ctgt x t with
             | Some c => match Cn m c with
-                        | Cn2 f' => chk (Bool.eqb (znz v) (is_some (co m f'))) (acts x [CancelTake c])
+                        | Cn2 f' => chk (Bool.eqb (znz v) (is_some (co m f')))
+                                        (acts (if znz v then set_cnull x (upd (cnull x) f' (tmr m f')) else x) [CancelTake c])
                         | _ => None end
             | None => ok x
             end
@@ -400,12 +417,12 @@ Definition mkplan (s : ast) (e : list Z) : plan :=
         match zassoc (oflag x) obj with
         | None => (* the word of a descriptor that is not in use (not yet, or closed while its event was in the batch) *)
             ok (set_sel (set_oflag x (oflag x) (if zmem (preflag x) obj then preflag x else obj :: preflag x))
-                        (selthr x) (upd (selcur x) t None))
+                        (selthr x) (upd (selcur x) t None) (upd (selpre x) t (Some obj)))
         | Some f' =>
             match bindthr (selthr x) f' t with
             | Some sth =>
                 chk (Bool.eqb (znz v) (flag m f'))
-                    (acts (set_sel x sth (upd (selcur x) t (Some f')))
+                    (acts (set_sel x sth (upd (selcur x) t (Some f')) (upd (selpre x) t None))
                           (flush m x t ++ (if pend m f' then [] else [Spurious f']) ++ [SelEvent f' f']))
             | None => None
             end
@@ -418,7 +435,7 @@ Definition mkplan (s : ast) (e : list Z) : plan :=
             | SIdle, _ => ok x       (* an event on a word that was not bound yet: nothing to take *)
             | _, _ => None
             end
-        | None => ok x
+        | None => ok (set_sel x (selthr x) (selcur x) (upd (selpre x) t None))    (* the slot of a descriptor that is not in use *)
         end
     | 42 => (* timeout_handler: io_flag.fetch_or(TIMER_MARK) -> old; the entry was popped because it is due *)
         match zassoc (oflag x) obj with
@@ -427,9 +444,28 @@ Definition mkplan (s : ast) (e : list Z) : plan :=
             match bindthr (selthr x) f' t, pick_timer m f' (nextt m) None with
             | Some sth, Some e =>
                 chk (Bool.eqb (znz v) (flag m f'))
-                    (acts (set_sel x sth (upd (selcur x) t (Some f')))
+                    (acts (set_sel x sth (upd (selcur x) t (Some f')) (upd (selpre x) t None))
                           (flush m x t ++ (if (now m <? tdl (T m e))%nat then [Tick (tdl (T m e) - now m)] else []) ++
                            [SelFire f' e; SelMark f']))
+            | Some sth, None =>
+                (* The handler looked at `event_data` of a due entry before a cancel (CancelIoImpl::cancel, on another
+                   thread) nulled it, and leaves its mark after the cancel took the coroutine.  The model does take and
+                   null in ONE step (CancelTake / SCan3), so this interleaving is not one of its runs; what the code does
+                   here - io_flag set, nothing taken - is what a spurious readiness report does, and is played as one
+                   (K4), after the silent pop of the nulled entry at its deadline.  See the report: IoModel folds two
+                   accesses of `cancel` that the selector thread can get in between. *)
+                match cnull x f' with
+                | Some e =>
+                    match tstate (T m e), tev (T m e) with
+                    | TArmed, None =>
+                        chk (Bool.eqb (znz v) (flag m f'))
+                            (acts (set_cnull (set_sel x sth (upd (selcur x) t (Some f')) (upd (selpre x) t None)) (upd (cnull x) f' None))
+                                  (flush m x t ++ (if (now m <? tdl (T m e))%nat then [Tick (tdl (T m e) - now m)] else []) ++
+                                   [SelFire f' e] ++ (if pend m f' then [] else [Spurious f']) ++ [SelEvent f' f']))
+                    | _, _ => None
+                    end
+                | None => None
+                end
             | _, _ => None
             end
         end
@@ -438,6 +474,7 @@ Definition mkplan (s : ast) (e : list Z) : plan :=
         | Some f' =>
             match Sel m f', bindo (oco x) obj f' with
             | THnd2 _ _, Some oc => chk (Bool.eqb (znz v) (is_some (co m f'))) (acts (set_oco x oc) [SelHnd f'])
+            | SEv _, Some oc => chk (negb (znz v) && negb (is_some (co m f'))) (acts (set_oco x oc) [SelTake f'])   (* see 42 *)
             | _, _ => None
             end
         | None => None
